@@ -87,6 +87,9 @@ StmtFaults == {
   <<"stray-break", "block", <<SBlock(<<T("b"), SBreak>> \o After)>> \o After>>,
   <<"stray-continue", "if-arm", <<SIf(Num(1), SBlock(<<SContinue>> \o After), None)>> \o After>>,
   <<"stray-return", "else-arm", <<SIf(Num(0), T("t"), SBlock(<<SReturn(None)>> \o After))>> \o After>>,
+  \* names of a declaration list end with their block
+  <<"undef", "after-varlist-block", <<SFun("st", <<"a">>, << SIf(Id("a"), SBlock(<< SVarList(<<SVar("lo", Num(3)), SVar("hi", Num(9))>>), SPrint(Bin("-", Id("hi"), Id("lo"))) >>), None), SPrint(Id("hi")) >>), SExpr(Call(Id("st"), <<Num(1)>>))>> \o After>>,
+  <<"undef", "after-varlist-bare-block", <<SBlock(<< SVarList(<<SVar("va", Num(1)), SVar("vb", Num(2))>>) >>), SPrint(Id("vb"))>> \o After>>,
   \* a return outside any function, inside loops: the loops pass it on, with its line
   <<"stray-return", "while-body", <<SVar("i", Num(0)), SWhile(Bin("<", Id("i"), Num(5)), SBlock(<<Inc("i"), SPrint(Id("i")), SIf(Bin("==", Id("i"), Num(3)), SReturn(None), None)>>))>> \o After>>,
   <<"stray-return", "for-body", <<SFor(SVar("i", Num(0)), Bin("<", Id("i"), Num(3)), Asg("i", Bin("+", Id("i"), Num(1))), SBlock(<<SPrint(Id("i")), SReturn(Id("i"))>> \o After))>> \o After>>,
